@@ -95,8 +95,10 @@ func validatePath(path string) error {
 		return errors.New(msg)
 	}
 
-	if strings.Contains(path, "$") {
-		return errors.New("cannot contain $")
+	// "$" would be interpolated as a variable; a backslash escapes the character that follows the value in the
+	// generated configuration (a trailing backslash swallows the ";" or the next argument).
+	if strings.ContainsAny(path, "$\\") {
+		return errors.New("cannot contain $ or \\")
 	}
 
 	return nil
